@@ -259,6 +259,44 @@ func DrawWrapperDoc(t *rapid.T, withUnknown bool) WrapperDoc {
 		doc.Target = spec.Map(spec.Dynamic)
 		w = wrapVal{`{"k":` + w.json + "}", append(append(mpMap(1), mpStr("k")...), w.msgpack...)}
 		labels = append(labels, "in-map")
+	case 3:
+		// SEVERAL members in a list / set / map of placeholders, each described
+		// on its own (so their types differ), some of them a bare null or an
+		// untyped unknown - in the first position too
+		n := rapid.IntRange(2, 4).Draw(t, "nmembers")
+		var js []string
+		var mp []byte
+		for i := 0; i < n; i++ {
+			m := w
+			switch rapid.IntRange(0, 3).Draw(t, "memberkind") {
+			case 0:
+				m = wrapVal{"null", []byte{0xc0}}
+			case 1:
+				if withUnknown {
+					m = wrapVal{"null", []byte{0xd4, 0x00, 0x00}}
+				} else {
+					m = wrapVal{"null", []byte{0xc0}}
+				}
+			case 2:
+				d2 := descType(t, 1)
+				m = wrapperOf(t, d2, planValue(t, d2, withUnknown, &labels))
+			}
+			js = append(js, m.json)
+			mp = append(mp, m.msgpack...)
+		}
+		switch rapid.IntRange(0, 2).Draw(t, "collkind") {
+		case 0:
+			doc.Target = spec.List(spec.Dynamic)
+		case 1:
+			doc.Target = spec.Set(spec.Dynamic)
+		default:
+			doc.Target = spec.Tuple(spec.String, spec.Set(spec.Dynamic))
+		}
+		w = wrapVal{"[" + strings.Join(js, ",") + "]", append(mpArr(n), mp...)}
+		if doc.Target.K == spec.KTuple {
+			w = wrapVal{`["s",` + w.json + "]", append(append(mpArr(2), mpStr("s")...), w.msgpack...)}
+		}
+		labels = append(labels, "several-members")
 	default:
 		labels = append(labels, "at-root")
 	}
